@@ -23,7 +23,7 @@ Clause(e) ==
     IF ~ReadMultiple(e.lo, e.hi, e.obs) THEN "non-multiple"
     ELSE IF ~ReadNeverLow(e.lo, e.hi, e.obs) THEN "too-low"
     ELSE IF ~ReadAtMost7(e.lo, e.hi, e.obs) THEN "too-high"
-    ELSE IF ~ReadOK(e.lo, e.hi, e.obs) THEN "outside-window"
+    ELSE IF ~ReadOKFast(e.lo, e.hi, e.obs) THEN "outside-window"
     ELSE IF e.obs < e.prev THEN "not-monotone"
     ELSE "ok"
   ELSE IF e.ev = "quiet" THEN
@@ -31,19 +31,16 @@ Clause(e) ==
     ELSE IF e.obs > Published(e.n) THEN "quiescent-too-high" ELSE "quiescent-too-low"
   ELSE "unknown-event"
 
-Clauses == {"non-multiple", "too-low", "too-high", "outside-window", "not-monotone",
-            "quiescent-too-high", "quiescent-too-low", "unknown-event"}
-
-FirstBad(c) ==
-  LET bad == {i \in DOMAIN TraceLog : Clause(TraceLog[i]) = c}
-  IN IF bad = {} THEN 0 ELSE CHOOSE i \in bad : \A j \in bad : i <= j
-
 Judge ==
-  LET firsts == {<<c, FirstBad(c)>> : c \in Clauses}
-      failing == {p \in firsts : p[2] > 0}
-  IN /\ \A p \in failing : PrintT(ToJson([rejected_at |-> p[2], clause |-> p[1], event |-> TraceLog[p[2]]]))
-     /\ PrintT(ToJson([judged |-> Len(TraceLog), failing |-> Cardinality(failing)]))
-     /\ failing = {}
+  LET log == TraceLog
+      bad == {i \in DOMAIN log : Clause(log[i]) # "ok"}
+      failing == {<<log[i].herd, Clause(log[i])>> : i \in bad}
+      Of(p) == {i \in bad : log[i].herd = p[1] /\ Clause(log[i]) = p[2]}
+      First(p) == CHOOSE i \in Of(p) : \A j \in Of(p) : i <= j
+  IN /\ \A p \in failing : PrintT(ToJson([rejected_at |-> First(p), herd |-> p[1], clause |-> p[2], event |-> log[First(p)],
+                                             count |-> Cardinality(Of(p))]))
+     /\ PrintT(ToJson([judged |-> Len(log), failing |-> Cardinality(bad)]))
+     /\ bad = {}
 
-TInit == IdleConc /\ q = 0 /\ r = 0 /\ n = 0 /\ n1 = 0 /\ n2 = 0
+TInit == kind = "trace" /\ IdleConc /\ q = 0 /\ r = 0 /\ n = 0 /\ n1 = 0 /\ n2 = 0
 =============================================================================
